@@ -321,38 +321,51 @@ def scaling_families():
     ]
 
 
+MEASURE_CAP_S = 60
+
+
 def measure(data):
     f, allowed = target()
     t0 = time.process_time()
     signal.signal(signal.SIGALRM, _on_alarm)
-    signal.alarm(120)
+    signal.alarm(MEASURE_CAP_S)
     try:
         try:
             f(data)
         except allowed:
             pass
         except _Alarm:
-            return 120.0
+            return float(MEASURE_CAP_S)
+        except Exception:
+            pass  # an escaping exception is judged by the mutation/nesting shards; here only the time matters
     finally:
         signal.alarm(0)
-    return time.process_time() - t0
+    return min(time.process_time() - t0, float(MEASURE_CAP_S))
 
 
 def scaling_case(name, build_fn, sizes, acc, ctx):
     """Time must grow about linearly with the input: t(16n)/t(4n) of a quadratic parser is ~16, of a linear one ~4."""
     datas = [build_fn(n) for n in sizes]
-    ts = [measure(d) for d in datas]
-    ratio = ts[2] / max(ts[1], 1e-3)
-    grow = len(datas[2]) / len(datas[1])
+    ts = []
+    for d in datas:
+        ts.append(measure(d))
+        if ts[-1] >= MEASURE_CAP_S:
+            break  # larger inputs can only be slower
     acc.case(nt_key=("scaling", name), classes=["scaling", f"scaling:{name}"], sample={"scaling": name, "bytes": [len(d) for d in datas], "cpu_s": [round(t, 3) for t in ts]}, sample_key=f"scaling/{name}")
-    if ts[2] > 0.75 and ratio > 2.6 * grow:
-        # confirm: repeat the two larger measurements (same process, warmed up) and require the excess again
-        t1b, t2b = measure(datas[1]), measure(datas[2])
-        t1c, t2c = measure(datas[1]), measure(datas[2])
-        if min(t2b, t2c) > 0.75 and min(t2b / max(t1b, 1e-3), t2c / max(t1c, 1e-3)) > 2.6 * grow:
-            raise Violation(f"{name}: parsing {len(datas[1])} bytes takes {ts[1]:.2f}/{t1b:.2f} s CPU, {len(datas[2])} bytes ({grow:.1f}x) takes {ts[2]:.2f}/{t2b:.2f} s ({ratio:.1f}x): "
-                            "time is not proportional to the input size", "about linear growth", bucket=f"scaling:{name}")
-        acc.note("inconclusive_resource")
+
+    def excess(i, t_small, t_large):
+        grow = len(datas[i]) / len(datas[i - 1])
+        return t_large > 0.75 and t_large / max(t_small, 1e-3) > 2.6 * grow
+
+    for i in range(1, len(ts)):
+        if excess(i, ts[i - 1], ts[i]) or (ts[i] >= MEASURE_CAP_S and len(datas[i]) < 50 * MEASURE_CAP_S * 1000):
+            # confirm: repeat both measurements twice (same process, warmed up) and require the excess every time
+            again = [(measure(datas[i - 1]), measure(datas[i])) for _ in range(2)]
+            if all(excess(i, a, b) or b >= MEASURE_CAP_S for a, b in again):
+                raise Violation(f"{name}: parsing {len(datas[i - 1])} bytes takes {ts[i - 1]:.2f} s CPU, {len(datas[i])} bytes ({len(datas[i]) / len(datas[i - 1]):.1f}x) takes {ts[i]:.2f} s "
+                                f"(repeated: {[(round(a, 2), round(b, 2)) for a, b in again]}; measurements are capped at {MEASURE_CAP_S} s): time is not proportional to the input size",
+                                "about linear growth", bucket=f"scaling:{name}")
+            acc.note("inconclusive_resource")
 
 
 def make_seeds(ctx, n, base):
